@@ -201,4 +201,50 @@ example : (jweFmt {} ["-i", "{\"ciphertext\":\"AA\",\"tag\":\"AQ\",\"iv\":\"Ag\"
     = bs "cA.Aw.Ag.AA.AQ" := by
   decide +kernel
 
+
+/-! ### jose jwe enc -/
+
+/-- the pieces of a `jose jwe enc` command line the theorems below speak about -/
+structure EncLine (w : World) (argv : List String) where
+  os : List (Char × String)
+  keys : List Json
+  inp : Input
+  rcps : List Json
+  hos : parseOpts ['i', 'I', 'r', 'k', 'o', 'O'] argv = some os
+  hkeys : foldOpt (addJwks w) (optsOf os 'k') = some keys
+  hinp : inputSet w jweFields ((lastOpt os 'i').getD "{}") = some inp
+  hrcps : (optsOf os 'r').foldl (fun acc a => acc.bind fun l => (loadJsonArg w a).map (l ++ [·])) (some []) = some rcps
+
+/-- **`jose jwe enc` fails without a key, and with `-c` and more than one key** (nothing is printed) -/
+theorem jwe_enc_key_count (P : Prims) (w : World) (argv : List String) (rnd : Bs) (L : EncLine w argv)
+    (h : L.keys = [] ∨ (L.keys.length > 1 ∧ hasFlag L.os 'c' = true)) : jweEnc P w argv rnd = fail := by
+  simp only [jweEnc, L.hos, L.hkeys, L.hinp, L.hrcps]
+  split
+  · rfl
+  · rcases h with h | ⟨h1, h2⟩
+    · simp [h]
+    · have : L.keys.isEmpty = false := by
+        cases hk : L.keys with
+        | nil => simp [hk] at h1
+        | cons _ _ => rfl
+      simp [this, h1, h2]
+
+/-- **`jose jwe enc` fails when the library refuses to wrap** (unusable key, unknown or mismatching algorithm,
+    key not permitted to wrap …): exit status 1, nothing printed, no file written -/
+theorem jwe_enc_wrap_refused (P : Prims) (w : World) (argv : List String) (rnd : Bs) (L : EncLine w argv)
+    (h : ∀ rcps, Jwe.encJwkKeys P (some (.arr rcps)) L.keys 0 L.inp.obj (.obj []) rnd = none) :
+    jweEnc P w argv rnd = fail := by
+  simp only [jweEnc, L.hos, L.hkeys, L.hinp, L.hrcps]
+  split
+  · rfl
+  · split
+    · rfl
+    · split
+      · rfl
+      · split
+        · rfl
+        · split
+          · rfl
+          · simp [h]
+
 end Jose.Props.C18
